@@ -240,7 +240,196 @@ async def caller_names_injected_parameter():
     return ok, f"{out}; body ran with {[(x, getattr(d, 'tag', d)) for x, d in ran]}"
 
 
-SCENARIOS = {f.__name__: f for f in (caller_names_injected_parameter, leaked_inner_context, parent_left_before_child,failed_generation_with_waiters, inject_across_short_lived_contexts,
+class Doom(BaseException):
+    """not an Exception"""
+
+
+async def leaked_child_survives_gc():
+    """C13: a child context entered from a context and never left is reported when that context is left, also
+    when nobody else refers to the child any more and the garbage collector has run"""
+    out = []
+    for nested in (False, True):
+        async with AsyncExitStack() as stack:
+            if nested:
+                await stack.enter_async_context(Context())
+            reported = False
+            try:
+                async with Context() as parent:
+                    async def leak():
+                        await Context(parent).__aenter__()
+                    async with anyio.create_task_group() as tg:
+                        tg.start_soon(leak)
+                    gc.collect()
+            except RuntimeError as e:
+                reported = "stack corruption" in str(e)
+            out.append((nested, reported))
+    return all(r for _, r in out), f"(nested, open child reported): {out}"
+
+
+async def closed_after_teardown_raised_baseexception():
+    """C13: after the block has been left the context is closed whatever the teardown raised: every guarded
+    operation raises RuntimeError and changes nothing"""
+    out = []
+    for nested in (False, True):
+        async with AsyncExitStack() as stack:
+            if nested:
+                await stack.enter_async_context(Context())
+            ctx = Context()
+            try:
+                async with ctx:
+                    def cb():
+                        raise Doom()
+                    ctx.add_teardown_callback(cb)
+            except BaseException:  # noqa
+                pass
+            refused = 0
+            for op in (lambda: ctx.add_resource(A(1)), lambda: ctx.add_teardown_callback(lambda: None),
+                       lambda: ctx.get_resource_nowait(A, optional=True),
+                       lambda: ctx.add_resource_factory(lambda: A(2), types=[A])):
+                try:
+                    op()
+                except RuntimeError:
+                    refused += 1
+            out.append((nested, ctx.closed, refused))
+    ok = all(c and n == 4 for _, c, n in out)
+    return ok, f"(nested, closed, operations refused of 4): {out}"
+
+
+async def owner_left_by_baseexception_waits_for_tasks():
+    """C09: tearing down the factory's owning context waits for -- does not cancel -- the running tasks,
+    whatever ended the block"""
+    seen = {}
+    release = anyio.Event()
+
+    async def work():
+        try:
+            await release.wait()
+            seen["finished"] = True
+        except anyio.get_cancelled_exc_class():
+            seen["cancelled"] = True
+            raise
+
+    async def releaser():
+        for _ in range(10):
+            await anyio.sleep(0)
+        release.set()
+    try:
+        async with anyio.create_task_group() as tg:
+            async with Context():
+                async with Context() as owner:
+                    tf = await owner.start_background_task_factory()
+                    tf.start_task_soon(work)
+                    await anyio.sleep(0)
+                    tg.start_soon(releaser)
+                    raise Doom()
+    except BaseException as e:  # noqa
+        seen["outcome"] = type(e).__name__
+    ok = seen.get("finished") is True and "cancelled" not in seen
+    return ok, f"{seen}"
+
+
+async def handler_sees_the_escaping_exception_once():
+    """C09: the exception that escapes a task -- an exception group as well -- is passed to the handler exactly
+    once, as it is"""
+    calls = []
+    grp = ExceptionGroup("two things failed", [ValueError(1), KeyError(2)])
+
+    def handler(exc):
+        calls.append(exc)
+        return True
+
+    async def failing():
+        raise grp
+    async with Context() as ctx:
+        tf = await ctx.start_background_task_factory(exception_handler=handler)
+        h = await tf.start_task(failing)
+        await h.wait_finished()
+    ok = len(calls) == 1 and calls[0] is grp
+    return ok, f"handler called {len(calls)} time(s) with {[type(c).__name__ for c in calls]}"
+
+
+async def failed_subscription_leaves_nothing():
+    """C10: a stream over several signals of which one is not bound fails with UnboundSignal and subscribes to
+    nothing: later dispatches on the others go on working"""
+    from asphalt.core import Event, Signal, UnboundSignal, stream_events
+
+    class Ev(Event):
+        pass
+
+    class Owner:
+        sig = Signal(Ev)
+    o = Owner()
+    failed = False
+    try:
+        async with stream_events([o.sig, Owner.sig]):
+            pass
+    except UnboundSignal:
+        failed = True
+    got, err = [], None
+    try:
+        async with o.sig.stream_events() as stream:
+            o.sig.dispatch(Ev())
+            async for ev in stream:
+                got.append(ev)
+                break
+    except BaseException as e:  # noqa
+        err = repr(e)
+    return failed and len(got) == 1 and err is None, f"UnboundSignal raised: {failed}; later dispatch delivered {len(got)}, error {err}"
+
+
+async def redispatched_event_is_stamped_again():
+    """C10: an event is stamped with the instance and attribute it is dispatched through, every time"""
+    from asphalt.core import Event, Signal
+
+    class Ev(Event):
+        pass
+
+    class Owner:
+        first = Signal(Ev)
+        second = Signal(Ev)
+    a, b = Owner(), Owner()
+    ev = Ev()
+    a.first.dispatch(ev)                      # nobody listens
+    t1 = ev.time
+    async with b.second.stream_events() as stream:
+        b.second.dispatch(ev)
+        async for got in stream:
+            break
+    ok = got is ev and got.source is b and got.topic == "second" and got.time >= t1
+    return ok, f"source is the second owner: {got.source is b}, topic {got.topic!r}"
+
+
+async def tree_started_inside_a_component():
+    """C14: equal configurations yield equal trees wherever they are started: a tree started from inside the
+    start() of a component deployed as kind/name names its own resources as it would anywhere else"""
+    from asphalt.core import Component, add_resource, get_resources, start_component
+
+    class Inner(Component):
+        async def prepare(self):
+            add_resource(A("inner-prepare"))
+
+        async def start(self):
+            add_resource(B("inner-start"))
+
+    class Host(Component):
+        async def start(self):
+            await start_component(Inner)
+
+    class Root(Component):
+        def __init__(self):
+            self.add_component("host/alt", Host)
+    async with Context():
+        await start_component(Root)
+        names = {"A": sorted(get_resources(A)), "B": sorted(get_resources(B))}
+    ok = names == {"A": ["default"], "B": ["default"]}
+    return ok, f"resource names of the nested tree: {names} (expected default for both)"
+
+
+SCENARIOS = {f.__name__: f for f in (leaked_child_survives_gc, closed_after_teardown_raised_baseexception,
+                                     owner_left_by_baseexception_waits_for_tasks,
+                                     handler_sees_the_escaping_exception_once, failed_subscription_leaves_nothing,
+                                     redispatched_event_is_stamped_again, tree_started_inside_a_component,
+                                     caller_names_injected_parameter, leaked_inner_context, parent_left_before_child,failed_generation_with_waiters, inject_across_short_lived_contexts,
                                      inherited_context_outlives_block, overlapping_injected_calls)}
 
 
